@@ -158,6 +158,12 @@ def main():
     # a value larger than Q may not be PASSED ON to a function either
     must_refuse = ['len(%s)' % big, '%s = 1' % big, 'str(%s).len()' % big,
                    '[pow(2, 400000)].len()', 'str(pow(2, 400000)).len()']
+    # dicts grown by accumulation: the yaql dict is a wrapper object, its
+    # own size is that of its storage
+    must_refuse += ['range(3000).aggregate($1.set($2, $2), {}).len()',
+                    'range(3000).aggregate($1 + {$2 => $2}, {}).len()',
+                    'dict(range(3000).select([$, $])).len()',
+                    'range(3000).toDict($, $).keys().len()']
     grow += must_refuse + ['pow(2, 400000)', 'shiftBitsLeft(1, 400000)']
     for text in grow:
         cases += 1
